@@ -31,15 +31,20 @@ INC_SUB = ["", "common", "crypto", "data_mgr", "handle_mgr", "object_store", "pk
 def sh(cmd, **kw):
     return subprocess.run(cmd, stdout=subprocess.PIPE, stderr=subprocess.STDOUT, text=True, **kw)
 
-def lib_sources():
+def lib_sources(variant="asan"):
+    """every library source of the chosen crypto back end; both object-store back ends (file and SQLite) are compiled into every variant"""
     out = []
     root = os.path.join(REPO, "src", "lib")
+    botan = variant == "botan"
     for d, dirs, files in os.walk(root):
         dirs[:] = sorted(x for x in dirs if x not in ("test", "win32"))
         for f in sorted(files):
             if not f.endswith(".cpp"):
                 continue
-            if f.startswith("Botan") or f.startswith("DB"):
+            if f.startswith("OSSL" if botan else "Botan"):
+                continue
+            if botan and f == "BotanRNG.cpp":
+                out.append(os.path.join(VERIF, "sim", "alt", "BotanRNG.cpp"))      # the RNG seam of the botan variant (stub, DESIGN 10.7)
                 continue
             out.append(os.path.join(d, f))
     return out
@@ -55,8 +60,9 @@ def file_hash(paths):
             h.update(b"<missing>")
     return h.hexdigest()
 
-def ensure_config(log):
-    cfg = os.path.join(BUILD, "cfg")
+def ensure_config(log, variant="asan"):
+    botan = variant == "botan"
+    cfg = os.path.join(BUILD, "cfg-botan" if botan else "cfg-db")
     inputs = [os.path.join(REPO, "CMakeLists.txt"), os.path.join(REPO, "config.h.in.cmake")]
     inputs += sorted(glob.glob(os.path.join(REPO, "cmake", "modules", "*.cmake")))
     stamp = os.path.join(cfg, "verif.stamp")
@@ -66,7 +72,7 @@ def ensure_config(log):
         return cfg
     os.makedirs(cfg, exist_ok=True)
     r = sh(["cmake", "-S", REPO, "-B", cfg, "-DBUILD_TESTS=OFF", "-DCMAKE_BUILD_TYPE=RelWithDebInfo",
-            "-DENABLE_EDDSA=ON", "-DENABLE_ECC=ON", "-DWITH_CRYPTO_BACKEND=openssl"])
+            "-DENABLE_EDDSA=ON", "-DENABLE_ECC=ON", "-DWITH_CRYPTO_BACKEND=" + ("botan" if botan else "openssl"), "-DWITH_OBJECTSTORE_BACKEND_DB=ON"])
     if r.returncode != 0 or not os.path.exists(os.path.join(cfg, "config.h")):
         sys.stderr.write(r.stdout)
         raise SystemExit(2)
@@ -125,7 +131,7 @@ def main():
     os.makedirs(BUILD, exist_ok=True)
     lockf = open(os.path.join(BUILD, "lock"), "w")
     fcntl.flock(lockf, fcntl.LOCK_EX)
-    cfg = ensure_config(log)
+    cfg = ensure_config(log, variant)
     out = os.path.join(BUILD, variant)
     os.makedirs(out, exist_ok=True)
 
@@ -133,7 +139,10 @@ def main():
             "-fno-pie", "-I" + cfg]
     base += ["-I" + os.path.join(REPO, "src", "lib", s) for s in INC_SUB]
     san = []
-    if variant == "asan":
+    botan = variant == "botan"
+    if botan:
+        base += ["-I/usr/include/botan-2"]
+    if variant in ("asan", "botan"):
         san = ["-fsanitize=address", "-fsanitize=null,bounds,object-size,return,unreachable",
                "-fno-sanitize-recover=all"]
     elif variant == "plain":
@@ -143,8 +152,8 @@ def main():
     jobs = []
     objs = []
     libroot = os.path.join(REPO, "src", "lib")
-    for src in lib_sources():
-        rel = os.path.relpath(src, libroot)
+    for src in lib_sources(variant):
+        rel = os.path.relpath(src, libroot) if src.startswith(libroot) else os.path.join("crypto", os.path.basename(src))
         obj = os.path.join(out, "lib", rel[:-4] + ".o")
         dep = obj[:-2] + ".d"
         flags = base + san
@@ -157,7 +166,7 @@ def main():
     # harness sources
     hflags = ["-std=c++17", "-O1", "-g1", "-w", "-fno-omit-frame-pointer", "-fno-pie",
               "-I" + os.path.join(REPO, "src", "lib", "pkcs11"), "-I" + os.path.join(VERIF, "sim"),
-              "-DNCOPIES=%d" % NCOPIES] + san
+              "-DNCOPIES=%d" % NCOPIES] + (["-DSIM_BOTAN"] if botan else []) + san
     if variant == "plain":
         hflags[1] = "-O2"
     hobjs = []
@@ -176,7 +185,7 @@ def main():
         for src, did, rc, outp in ex.map(compile_one, jobs):
             if did:
                 rebuilt_any = True
-                if src.startswith(libroot):
+                if src.startswith(libroot) or os.sep + "alt" + os.sep in src:
                     rebuilt_lib = True
             if rc != 0:
                 failed = True
@@ -216,7 +225,7 @@ def main():
     exe = os.path.join(out, "p11sim")
     if rebuilt_any or not os.path.exists(exe):
         cmd = [CXX, "-no-pie", "-o", exe + ".tmp"] + hobjs + copies + san + \
-              ["-Wl,--wrap=" + w for w in WRAP] + ["-lcrypto", "-lpthread", "-ldl"]
+              ["-Wl,--wrap=" + w for w in WRAP] + (["-lbotan-2"] if botan else ["-lcrypto"]) + ["-lsqlite3", "-lpthread", "-ldl"]
         r = sh(cmd)
         if r.returncode != 0:
             sys.stderr.write(r.stdout); raise SystemExit(2)
